@@ -30,6 +30,14 @@ def run(ctx):
     check_sink(ctx, prog)
     # the decoder side of the number round trip: integer / double conversion sites of the parser are range-guarded
     C06.check_numbers(ctx, prog)
+    # ... and of the documents the encoders write: numbers in every form directly followed by a separator, XDL items separated by
+    # new lines only (pretty / nice layout), nested containers - each has an accepting run through the parser machine
+    import automaton
+    try:
+        m = C06.build_machine(ctx, prog, explore=False)
+        C06.check_corpus(ctx, prog, m)
+    except automaton.Stuck as ex:
+        ctx.undecided('C06.docs', 'asl::XdlParser::parse', 'parse:every document of the corpus has an accepting run', '/repo/src/Xdl.cpp:0', 'the decoder loop uses a construct the abstract interpreter cannot represent: %s' % ex)
     return __doc__.split('\n\n', 1)[1]
 
 
